@@ -127,12 +127,16 @@ Definition content_ok (U : universe) (cl : cls) : bool :=
      | None => true
      end.
 
+(** the same on the flattened member list: at most one XmlData, and then no element member *)
+Definition flat_content_ok (fs : list field) : bool :=
+  (count_kind KData fs <=? 1) && (negb (has_kind KData fs) || negb (has_kind KElem fs)).
+
 Definition cls_ok (U : universe) (i : nat) (cl : cls) : bool :=
   match c_parent cl with Some p => Nat.ltb p i | None => true end
   && forallb (fun f => ty_ok (length U) (f_ty f) && field_shape_ok f) (c_own cl)
   && content_ok U cl
   && match flat_fields U i with
-     | Some fs => nodup_text (map f_name fs)
+     | Some fs => nodup_text (map f_name fs) && flat_content_ok fs
      | None => false
      end.
 Fixpoint wf_from (U : universe) (i : nat) (l : list cls) : bool :=
